@@ -13,7 +13,9 @@ PARTIAL = ("proved over the regenerated grammar, for every behaviour of the prim
 JUNK = ["\n)", "\n]]", "\n\x01", "\n@@@ ???", "\nendmodule", "\n\"unterminated", "\n`undefined_macro_is_a_pp_error"]
 # unparsable text that starts like a continuation of the last description (label colon, parameter hash, ...)
 JUNK2 = [": 1", ":;", ": (", " : ", "\n: 1", "#", "# (", "(", "[", ".x", "= 1", "::", ",", "@ (", "begin", "; ;;", "else", "'", "1", "? :",
-         "`celldefine\n: 1", "/* c */ : 2"]
+         "`celldefine\n: 1", "/* c */ : 2",
+         # text that no token can start with, directly behind the last token of the source
+         "é", "ü x", "≠ 1", "中文", "😀", "\u00a0x", "\x7f", "\x01 y", "×", "ÿ("]
 HEADS = ["timeunit 1ns\nmodule m; endmodule\n", "timeunit 1ns / ;", "timeprecision ;", "timeunit", "timeunit 1ns; timeprecision 1ps\n",
          "timeunit 1ns/1ps;\nmodule m; endmodule\n", "   // c\n  timeunit 1ns", "module", "module m", "module m;", "module m; wire",
          "library", "library l", "include", "config c; design", ";", ")", "`resetall", "package p; endpackage module", "bind"]
@@ -71,9 +73,11 @@ def check(ctx):
         c.add("opt", "incomplete", 1).add("run", "parse_%s_str" % k, hx(s), hx("t.sv"))
         c.add("opt", "incomplete", 1).add("run", "parse_%s_str" % k, hx(s + "\n) \x01 garbage"), hx("t.sv"))
         j2 = r.choice(JUNK2)
-        j2 = r.choice([" ", "\n"] if (j2[0].isalnum() or j2[0] in "_$") else ["", " ", "\n"]) + j2   # never glue two words
-        c.add("opt", "incomplete", 1).add("run", "parse_%s_str" % k, hx(s + j2), hx("t.sv"))
-        c.add("opt", "incomplete", 0).add("run", "parse_%s_str" % k, hx(s + j2), hx("t.sv"))
+        j2 = r.choice([" ", "\n"] if (j2[0].isascii() and (j2[0].isalnum() or j2[0] in "_$")) else ["", "", " ", "\n"]) + j2   # never glue two words
+        # junk that no token can start with is put directly behind the last token of the source (its final white space goes)
+        s2 = s.rstrip(" \t\r\n") if not j2[0].isascii() and "`" not in s.splitlines()[-1:][0:1].__str__() else s
+        c.add("opt", "incomplete", 1).add("run", "parse_%s_str" % k, hx(s2 + j2), hx("t.sv"))
+        c.add("opt", "incomplete", 0).add("run", "parse_%s_str" % k, hx(s2 + j2), hx("t.sv"))
         cases.append(c)
         meta[c.id] = (k, s, j2)
     impl = run_harness("api", cases, "c15", timeout=1800)
